@@ -452,9 +452,20 @@ FieldOf(obj, name) ==
   ELSE VUndef
 Receiver(tok) == LET v == Val(tok) IN IF v.t = "cls" THEN ClassRef(v.i) ELSE v
 
+(* C10, rule kind object_call: a method call statement that a source rule names by the access path of its receiver
+   (req.read, request.query_string.decode, %this.conn.recv) is a call into external code whose result is the source value;
+   the case lists those statements.  In taint mode a field read from / a method call on something that is not an object of the
+   program (an unresolved import, None, a string) is external code as well: no effect, result None. *)
+StmtSources == IF "stmt_sources" \in DOMAIN Case(c) THEN ToSet(Case(c).stmt_sources) ELSE {}
+ExternalReceiver(r) == Case(c).check = "taint" /\ r.t \in {"undef", "none", "builtin", "str", "int"}
+
 ObjectCall == /\ Cur.op = "object_call_stmt"
               /\ LET r == Receiver(Cur.receiver_object_tok) IN
-                 IF r.t # "ref" THEN Fail("receiver_" \o ToString(Cur.id))
+                 IF Cur.id \in StmtSources
+                 THEN GoK(AdvK(Kont), SetVar(envs, Act.ser, Cur.target, AddTags(VStr("data"), {Cur.id})), heap, out)
+                 ELSE IF ExternalReceiver(r)
+                 THEN GoK(AdvK(Kont), IF Cur.target = "" THEN envs ELSE SetVar(envs, Act.ser, Cur.target, VNone), heap, out)
+                 ELSE IF r.t # "ref" THEN Fail("receiver_" \o ToString(Cur.id))
                  ELSE IF heap[r.i].kind = "array" /\ Cur.field \in {"append", "push"}
                  THEN GoK(AdvK(Kont), envs, [heap EXCEPT ![r.i].elems = Append(@, Val(Cur.pos_toks[1]))], out)
                  ELSE LET f == FieldOf(r, Cur.field) IN
@@ -521,7 +532,8 @@ FieldWrite ==
 FieldRead ==
   /\ Cur.op = "field_read"
   /\ LET r == Receiver(Cur.receiver_object_tok) IN
-     IF r.t # "ref" THEN Fail("field_read_" \o ToString(Cur.id))
+     IF ExternalReceiver(r) THEN GoK(AdvK(Kont), SetVar(envs, Act.ser, Cur.target, VNone), heap, out)
+     ELSE IF r.t # "ref" THEN Fail("field_read_" \o ToString(Cur.id))
      ELSE LET v == FieldOf(r, PropKey(Cur.field_tok, Cur.field)) IN
           IF v.t = "undef" THEN Fail("no_such_field_" \o Cur.field) ELSE Define(Cur.target, v)
 
